@@ -198,7 +198,7 @@ def handle (req : Json) : R Json := do
     | .ok el =>
       match serializeJson [el] [] with
       | .ok j => pure (Json.mkObj [("parse", "ok"), ("r", "ok"), ("json", encVal j), ("elem", encElem el),
-          ("nf_good", nfGood cx schema), ("nf", nfB cx (parseE cx schema))])
+          ("nf_good", nfGood cx schema), ("nf", nfBool cx (parseE cx schema))])
       | .error _ => pure (Json.mkObj [("parse", "ok"), ("r", "err"), ("elem", encElem el)])
   | "to_schema" => do
     -- the schema-level model of the serializer against the (dereferenced) output of the real `serialize_json`;
@@ -221,7 +221,7 @@ def handle (req : Json) : R Json := do
       | some _ => getArgs req
       | none => pure []
     let fl := flagsOf cx s
-    pure (Json.mkObj [("same", same), ("nf", nfB cx el), ("nfn", nfnB cx el), ("good", fl.all), ("perr", match parseErr s with
+    pure (Json.mkObj [("same", same), ("nf", nfBool cx el), ("nfn", nfnBool cx el), ("good", fl.all), ("perr", match parseErr s with
         | some e => Json.str (perrName e)
         | none => Json.null),
       ("round_trip_identity", sameRepr back el), ("back", encElem back),
@@ -359,7 +359,7 @@ def handle (req : Json) : R Json := do
   | "elem_eq" => do
     let a ← decElem (← req.getObjVal? "a")
     let b ← decElem (← req.getObjVal? "b")
-    pure (Json.mkObj [("eq", elemEq a b), ("eq_rev", elemEq b a), ("anon_same", sameRepr (anonymize a) (anonymize b))])
+    pure (Json.mkObj [("eq", elemEq a b), ("eq_rev", elemEq b a), ("anon_same", Elem.same (anonymize a) (anonymize b))])
   | "elem_call" => do
     let tables ← getTables req
     let el ← decElem (← req.getObjVal? "elem")
